@@ -208,9 +208,15 @@ def _get(res, name, form, nctl, stratum):
     if nctl == 0:
         return res if form == "callable" else res[name]
     key = stratum[0] if nctl == 1 else tuple(stratum)
+    if not isinstance(res, pd.Series if form == "callable" else pd.DataFrame):
+        raise _NoEntryPerControlCombination(type(res).__name__)
     if form == "callable":
         return res.loc[key]
     return res.loc[key, name]
+
+
+class _NoEntryPerControlCombination(Exception):
+    pass
 
 
 def check_table(ctx, mf, name, form, nctl, strata, cells, cv, ov):
@@ -246,7 +252,12 @@ def check_table(ctx, mf, name, form, nctl, strata, cells, cv, ov):
         wit = {"stratum": list(st), "group_values": vals, "overall": o, "form": form, "control_features": nctl}
         got = {}
         for (agg, method, err), res in results.items():
-            v = _get(res, name, form, nctl, st)
+            try:
+                v = _get(res, name, form, nctl, st)
+            except _NoEntryPerControlCombination as e:
+                # with control features every aggregate is indexed by the control combinations, also when only one occurs
+                ctx.violate("aggregate_has_no_entry_per_control_combination:%s" % agg, method=method, errors=err, got_type=str(e), wit=wit)
+                return
             got[(agg, method, err)] = v
             ctx.ev("aggregate_values_compared")
             ok = np.ndim(v) == 0 and any(close(v, c, 1e-12, 0.0) or (c == 0 and v == 0) for c in exp[(agg, method)])
